@@ -159,7 +159,14 @@ func c01Body(t *testing.T, s *sim.Scn, o *sim.Outcome) {
 			time.Sleep(time.Second) // the aggregation loop never calls publishBlock before genesis time + block time
 			kind := int(op.A % 5)
 			r := &sim.SeqResp{Kind: kind}
-			switch op.B % 3 {
+			switch op.B % 5 {
+			case 3:
+				// a timestamp with a sub-millisecond part, a fraction of a millisecond after the last block's
+				r.Time = lastTime().Add(600 * time.Microsecond)
+				o.Count("ts:sub-millisecond", 1)
+			case 4:
+				r.Time = lastTime().Add(100 * time.Microsecond)
+				o.Count("ts:sub-millisecond", 1)
 			case 0:
 				r.Time = time.Now()
 			case 1:
@@ -206,8 +213,8 @@ func c01Body(t *testing.T, s *sim.Scn, o *sim.Outcome) {
 			err := n.Produce()
 			n.Scripted.Script = nil
 			n.Exec.ExecScript = nil
-			o.Logf("%d produce kind=%d ts=%d exec=%q err=%v %s", i, kind, op.B%3, op.S, err != nil, n.AbstractState())
-			if !checkAfter(i, hBefore, fmt.Sprintf("produce(kind=%d,ts=%d)", kind, op.B%3)) {
+			o.Logf("%d produce kind=%d ts=%d exec=%q err=%v %s", i, kind, op.B%5, op.S, err != nil, n.AbstractState())
+			if !checkAfter(i, hBefore, fmt.Sprintf("produce(kind=%d,ts=%d)", kind, op.B%5)) {
 				return
 			}
 			if err != nil {
